@@ -8,7 +8,7 @@ import props.C06 as C06
 RULE = ('grammar scripts (comments in any gap, hints) x {strip_comments, keyword_case upper/lower/capitalize, identifier_case upper/lower/capitalize, truncate_strings N (+truncate_char)} alone and combined with layout options; '
         'each output re-lexed and compared token by token; each filter applied to its own output; non-trivial = distinct (script, filter options)')
 ASSUMPTIONS = ['conversion idempotence of str.upper/lower/capitalize (validated on all code points by S-CASE in the filters validation)', 'lexical bridge by re-lexing with the real lexer']
-PARTIAL = ['no-fusing and end-to-end idempotence are oracle-checked (lexical bridge); known findings KF-C08-1..6']
+PARTIAL = ['case filters: token-level map/idempotence AND the lexical bridge (the output text lexes to exactly the filtered tokens; lexing is invariant under ASCII case flips anywhere) are theorems for values whose case mapping is a same-length re-casing (all ASCII text; KF-C08-7 is the other case); strip_comments and truncate_strings: no fusing and end-to-end idempotence are oracle-checked; known findings KF-C08-1..7']
 
 
 def toks(text):
@@ -135,10 +135,18 @@ def hint_after_comment_with_gap(text):
     return False
 
 
+def has_expanding_case_letter(text):
+    """a letter whose upper/lower case mapping contains a character that is not a word character (base letter + combining mark)"""
+    isw = lambda ch: ch.isalnum() or ch == '_'
+    return any(c.isalpha() and (not all(isw(x) for x in c.upper()) or not all(isw(x) for x in c.lower())) for c in text)
+
+
 def classify(f, kf):
     import re
     opts = str(f.get('options'))
     for k in kf:
+        if k['id'] == 'KF-C08-7' and "'identifier_case'" in opts and isinstance(f.get('input'), str) and has_expanding_case_letter(f['input']):
+            return k['id']
         if k['id'] == 'KF-C08-6' and "'strip_comments': True" in opts and re.search(r'(^\s*|\()(/\*.*?\*/|--[^\n]*\n|# [^\n]*\n)(/\*|--|# )', f['input'], re.S) \
                 and f.get('comments_got', 0) > f.get('comments_expected', 0):
             return k['id']
